@@ -60,10 +60,14 @@ def device_vars(cls):
     return [(n, d.fmt) for n in dir(cls) for d in [getattr(cls, n, None)] if isinstance(d, DeviceVar)]
 
 
-def init_contract():
+def init_contract(stale=False):
+    """stale: the devices were in another group before (or their variables were
+    assigned before they joined one): their instance dicts already hold a number
+    under the variables' names"""
     params = dict(self=T.Obj(ProcessSyncGroup))
     for i, c in enumerate(DEVICES):
-        params[f"dev{i}"] = T.Obj(c)
+        pre = {n: T.Range(0, None) for n, _ in device_vars(c)} if stale else {}
+        params[f"dev{i}"] = T.Obj(c, **pre)
 
     def setup(ex, inputs):
         inputs.vars["kwargs"] = {"subprograms": PList([inputs.vars[f"dev{i}"] for i in range(len(DEVICES))])}
@@ -80,7 +84,8 @@ def init_contract():
             f"{o2}.__dict__['{n2}'] + size('{p2}') <= {o1}.__dict__['{n1}'])")
     ens["devices_belong_to_the_group"] = " and ".join(f"dev{i}.ebpf is self" for i in range(len(DEVICES)))
     return Contract(
-        SimulatedEBPF.__init__, name="SimulatedEBPF.__init__<ProcessSyncGroup, 3 devices>",
+        SimulatedEBPF.__init__, name="SimulatedEBPF.__init__<ProcessSyncGroup, 3 devices" +
+        (", regrouped>" if stale else ">"),
         params=params, setup=setup, ensures=ens, modifies=None,
         options={"inline": {"ebpfcat.ebpf:EBPFBase.__init__", "ebpfcat.arraymap:ArrayMap.collect"}},
         canaries={"no_device_attached": "dev0.ebpf is not self"})
